@@ -2,7 +2,7 @@
 import asyncio
 
 from hypothesis import strategies as st
-from hypothesis.stateful import RuleBasedStateMachine, invariant, precondition, rule
+from hypothesis.stateful import RuleBasedStateMachine, initialize, precondition, rule
 
 from ..engine import Sub, Violation, machine_guard
 from ..fake import env, net, ops
@@ -254,6 +254,11 @@ def machine_factory(typ):
 
             def do(self, step):
                 machine_guard(rep, new, sub_name, self.dead, lambda: self.sys.apply(step), self.sys.case, ctl)
+
+            @initialize(begin=st.sampled_from(["nothing", "connect", "connect", "refused_connect", "refused_context"]))
+            def begin(self, begin):
+                if begin != "nothing":
+                    self.do({"action": begin})
 
             @precondition(lambda self: not self.sys.model_connected)
             @rule()
